@@ -205,6 +205,13 @@ func samplesFor(t string, r *RNG, coll *reg.Collection) []operand.Op {
 		if r.Chance(20) {
 			return operand.NewParamAddr("x", 8)
 		}
+		if r.Chance(15) { // pseudo-register base (stack or argument area) with an index register
+			ix := Pick(r, []reg.Register{reg.RCX, reg.R9, reg.RDX})
+			if r.Bool() {
+				return operand.NewStackAddr(8*r.Intn(3)).Idx(ix, Pick(r, []uint8{1, 2, 4, 8}))
+			}
+			return operand.NewParamAddr("x", 8*r.Intn(2)).Idx(ix, Pick(r, []uint8{1, 8}))
+		}
 		return m
 	}
 	switch t {
@@ -553,6 +560,7 @@ func c06(c *Ctx) {
 		o.ExpectEmpty(fname, "R_bad_ctors", "violation", "an entry point does not forward its parameters in order to the same-named constructor/forms, or its documented forms differ from the table's forms (index into the sorted constructor list of this shard)")
 		o.Oblig(strings.TrimSuffix(fname, ".v")+".forms_wf", strings.TrimSuffix(fname, ".v")+".ctors_ok")
 	}
+	files = append(files, predicateMatrix(c, d))
 	o.Stage(files...)
 
 	// the shipped tables are what the in-tree generators produce from the in-tree database
@@ -633,4 +641,73 @@ func regenerate(c *Ctx) []regenResult {
 		res = append(res, r)
 	}
 	return res
+}
+
+
+// predicateMatrix: every operand-type predicate of the form table (oprndtype.Match, i.e. operand.IsXXX)
+// against a fixed universe of operand values: every physical register view, virtual registers of every
+// kind and width (incl. high byte), integer constants of every width and signedness, float and string
+// constants, memory operands of every shape (GP / pseudo / no base, GP and vector index), relative
+// offsets and label references.  The meaning of a type name is Model/Forms.v type_match.
+func predicateMatrix(c *Ctx, d *formsDump) string {
+	o := c.Out
+	var univ []operand.Op
+	for _, e := range theRegs {
+		univ = append(univ, e.R)
+	}
+	coll := reg.NewCollection()
+	g := coll.GP64()
+	univ = append(univ, g, g.As32(), g.As16(), g.As8(), g.As8L(), g.As8H(), coll.GP32(), coll.GP16(), coll.GP8(), coll.GP8L(), coll.GP8H(),
+		coll.XMM(), coll.YMM(), coll.ZMM(), coll.K())
+	{
+		var ks []int
+		for k := range wrapped1 {
+			ks = append(ks, k)
+		}
+		sort.Ints(ks)
+		for _, k := range ks {
+			univ = append(univ, wrapped1[k])
+		}
+	}
+	for _, v := range []uint64{0, 1, 2, 3, 4, 5, 127, 128, 255} {
+		univ = append(univ, operand.U8(v), operand.I8(int8(v)))
+	}
+	univ = append(univ, operand.U16(1), operand.I16(-3), operand.U32(3), operand.I32(-1), operand.U64(1), operand.I64(-1), operand.U16(65535), operand.U32(1<<31), operand.U64(1<<63),
+		operand.F32(1.5), operand.F64(3), operand.F64(1), operand.String("A"), operand.String("ab"), operand.String("abc"), operand.String("abcd"), operand.String("8 bytes!"), operand.String(""))
+	univ = append(univ,
+		operand.Mem{Base: reg.RAX}, operand.Mem{Base: reg.R13, Index: reg.RCX, Scale: 8, Disp: 16}, operand.Mem{Base: reg.EAX}, operand.Mem{Index: reg.RCX, Scale: 4},
+		operand.Mem{}, operand.Mem{Base: coll.GP64(), Index: coll.GP64(), Scale: 1},
+		operand.NewParamAddr("x", 8), operand.NewStackAddr(16), operand.NewStackAddr(8).Idx(reg.RCX, 8), operand.NewParamAddr("x", 0).Idx(coll.GP64(), 4),
+		operand.NewDataAddr(operand.NewStaticSymbol("tbl"), 0), operand.NewDataAddr(operand.NewStaticSymbol("tbl"), 8).Idx(reg.RDX, 8),
+		operand.Mem{Base: reg.R8, Index: reg.X2, Scale: 4}, operand.Mem{Base: reg.RAX, Index: reg.Y9, Scale: 8}, operand.Mem{Base: reg.RDX, Index: reg.Z30, Scale: 1, Disp: 64},
+		operand.Mem{Base: reg.R8, Index: coll.XMM(), Scale: 4}, operand.Mem{Index: reg.X20, Scale: 2}, operand.Mem{Base: reg.X1, Index: reg.X2, Scale: 1},
+		operand.Rel(0), operand.Rel(127), operand.Rel(-128), operand.Rel(128), operand.Rel(-129), operand.Rel(1<<20), operand.LabelRef("lbl"))
+	var types []string
+	var tidx []int
+	for k, tn := range d.TypeNames {
+		if tn == "None" || tn == "max" || tn == "" {
+			continue
+		}
+		types = append(types, tn)
+		tidx = append(tidx, k)
+	}
+	base := len(o.Plan.Cases)
+	var rows []string
+	for _, op := range univ {
+		var bs []string
+		for _, k := range tidx {
+			bs = append(bs, cBool(x86.VerifTypeMatch(uint8(k), op)))
+		}
+		rows = append(rows, "("+cOperand(op)+", "+cList(bs)+")")
+		o.AddCase(Case{Key: "predicate:" + op.Asm(), Desc: "operand " + op.Asm() + fmt.Sprintf(" (%T) against every operand type", op), Input: map[string]any{"operand": op.Asm(), "go_type": fmt.Sprintf("%T", op)}, Nontrivial: true})
+	}
+	var b strings.Builder
+	b.WriteString(formsHeader)
+	fmt.Fprintf(&b, "Definition ptypes : list string := %s.\n", cStrs(types))
+	fmt.Fprintf(&b, "Definition prows : list (operand * list bool) := %s.\n", cListNL(rows))
+	fmt.Fprintf(&b, "Definition R_predicate_violation := Eval vm_compute in List.map (N.add %d) (idx_where (fun r : operand * list bool => negb (list_eqb Bool.eqb (List.map (fun t => type_match regs t (fst r)) ptypes) (snd r))) prows).\nPrint R_predicate_violation.\n", base)
+	o.WriteFile("Matrix.v", b.String())
+	o.ExpectEmpty("Matrix.v", "R_predicate_violation", "violation", "an operand-type predicate (operand.IsXXX via oprndtype.Match) accepts or rejects this operand contrary to the meaning of the type name (Model/Forms.v type_match): e.g. a float constant as imm32, CH as cl, a 32-bit base register as memory")
+	o.Plan.Stats["predicate_matrix"] = fmt.Sprintf("%d operands x %d types", len(univ), len(types))
+	return "Matrix.v"
 }
